@@ -80,6 +80,16 @@ def apply_contract(interp, c, fv, args, kwargs, node):
                 vars_[nm] = kwargs[nm]
             else:
                 raise Unsupported(f"{c.key}: missing argument {nm}")
+    from .values import VOpt, parse_shape
+    for nm, sh in c.params.items():
+        v = vars_.get(nm)
+        if isinstance(v, VOpt):
+            try:
+                psh = parse_shape(sh, interp.reg.models)
+            except ValueError:
+                continue
+            if not (isinstance(psh, tuple) and psh and psh[0] == "opt"):
+                vars_[nm] = interp.need(v)
     env = Env(None, dict(vars_))
     spec = interp.sub(True)
     old = {k: snapshot(v) for k, v in vars_.items()}
